@@ -963,7 +963,7 @@ package moss
 //@   loop 1: invariant forall i int :: 0 <= i && i <= rangeindex && i < len(slocs) && slocs[i].mref != nil ==> slocs[i].mref.refs > old(slocs[i].mref.refs)
 
 //@ func (s *Store) revertToSnapshot(revertToFooter *Footer, options StorePersistOptions) (rv *Footer, err error)
-//@   props C12 C11
+//@   props C12 C11 C02 C15
 //@   requires revertToFooter != nil
 //@   modifies heap(Footer.refs), heap(Footer.SegmentLocs), heap(Footer.ss), heap(Footer.ChildFooters), heap(mmapRef.refs), heap(mmapRef.buf), heap(mmapRef.fref), heap(mmapRef.mm), heap(FileRef.refs), heap(FileRef.file), heap(FileRef.beforeCloseCallbacks), heap(FileRef.afterCloseCallbacks), ioFailed
 //@   ensures @assume_depth err == nil ==> footerDepth(rv) == footerDepth(revertToFooter)
@@ -1524,7 +1524,7 @@ package moss
 // one critical section, and wakes the persister when it does; a base section
 // that is still being persisted is never replaced.
 //@ func (m *collection) mergerNotifyPersister()
-//@   props C13 C16 C04 C01 C03 C20
+//@   props C13 C16 C04 C01 C03 C20 C02 C15
 //@   attr obligations lock-inv region guarded lock wait
 //@   attr waits-observe-stop stopCh
 //@   requires m != nil && m.options != nil && !held(m.m) && m.stats != nil
